@@ -210,6 +210,15 @@ def run_unit(unit, rec):
                             bad = ("e", "a scaled chromaticity lies outside the chromatic gamut (by %.3g)" % -np.min(mo))
                         elif any_outside:
                             rec.stat_max("tightness_gap", float(np.min(mo)))
+                if bad is None and np.any(zero) and any_outside:
+                    # all-zero rows have no chromaticity: the common factor of the other rows does not depend on their presence
+                    rec.trans()
+                    try:
+                        out2 = np.asarray(est.gamut_dist_scaling(Tn.copy(), neutral_point=neutral, relative=relative), dtype=float)
+                        if out2.shape != On.shape or np.max(np.abs(out2 - On)) > 1e-9 * (1 + np.max(np.abs(On))):
+                            bad = ("g", "all-zero rows change the result of the other rows (max dev %.3g)" % (np.max(np.abs(out2 - On)) if out2.shape == On.shape else np.nan))
+                    except Exception as e:  # noqa
+                        bad = ("h", "the same set without its all-zero rows raised %r" % (e,))
                 rec.outcome("dist-scaling-%s/%s" % ("inside" if all_inside else ("outside" if any_outside else "boundary"), "ok" if bad is None else "bad"))
                 if bad:
                     _v(rec, bad[0], dict(sig, what=bad[1][:40]), bad[1], case, observed=out[:4], expected=dict(input=T[:4]), script=scr)
